@@ -227,7 +227,7 @@ class State:
         self.vinit = {}
         self.mem = {}
         self.allocated = []       # blocks malloc'd (or received from callees) since function entry
-        self.live = True
+        self.return_ordinal = None
 
     def fork(self):
         s = State()
